@@ -5,6 +5,8 @@ def run(ctx):
     ctx.assumptions += [
         "alphabet: tick, NMT start/stop/pre-op/reset communication/reset node, SDO and API writes of 1017h (0..4 ms), heartbeat of a monitored node (consumer timer activity), TPDO trigger, SDO read; node id 5, 1017h = 2 ms initially, one consumer (node 10, 3 ms), 1 kHz timer",
         "invariant on the reference (ghost countdown): a heartbeat frame with the current state is sent on a tick iff the countdown expires on it and the state is PRE-OPERATIONAL/OPERATIONAL/STOPPED; a write restarts the countdown, 0 stops it",
-        "PDO/SYNC reconfiguration interleavings are covered by the C12/C16 alphabets, which also contain the heartbeat producer",
+        "PDO reconfiguration and PDO timer activity: configuration C10P of the PDO model (CoPdo with its heartbeat producer): event TPDO with inhibit and event timer, COB-ID / event-time writes, NMT, reset, 1017h written 0 / 2 / 3 ms at any point; timer-pool occupancy in the probe",
     ]
     node_check.run(ctx, "C10", walks=(150, 8000))
+    import pdo_check
+    pdo_check.run(ctx, ["C10P"], quick_edges=9000, walks=(40, 2000))
